@@ -62,6 +62,67 @@ class E2ECheck(Check):
         return e2e_candidates(case)
 
 
+class LegacyMixin:
+    """Adds the legacy S3Transfer front-end (real threads, schedule-
+    independent oracles) as a second class of cases."""
+    legacy_ops = ('upload', 'download')
+    legacy_props = ()
+    legacy_faults = False
+    legacy_share = 6          # 1 in N cases is a legacy case
+
+    def strategy(self, tier):
+        from hypothesis import strategies as st
+        base = super().strategy(tier)
+        leg = gen.legacy_cases(self.legacy_ops, self.legacy_faults)
+        return st.one_of(*([base] * (self.legacy_share - 1) + [leg]))
+
+    def execute(self, case):
+        if case.get('kind') == 'legacy':
+            from ..legacy import run_legacy_case, oracle_legacy
+            R = run_legacy_case(case)
+            out = {'violations': [], 'cls': [], 'nontrivial': False}
+            if R.hang:
+                out['inconclusive'] = True
+                out['cls'] = ['legacy:hang']
+                return out
+            pid = self.id.lower()
+            out['violations'] = [
+                (sig.replace('legacy:', f'{pid}:legacy:', 1)
+                 if not sig.startswith(pid) else sig, msg)
+                for sig, msg in oracle_legacy(R, set(self.legacy_props))]
+            o = R.transfers[0]['outcome'] or {}
+            multi = case['size'] >= case['threshold']
+            out['cls'] = [f'legacy:{case["op"]}:'
+                          f'{"multi" if multi else "single"}:'
+                          f'{"ok" if o.get("ok") else "fail"}']
+            out['nontrivial'] = bool(multi or R.trace.delivered)
+            return out
+        return super().execute(case)
+
+    def shrink_candidates(self, case):
+        if case.get('kind') == 'legacy':
+            import copy
+            for k in ('faults',):
+                for i in range(len(case.get(k) or [])):
+                    c = copy.deepcopy(case)
+                    del c[k][i]
+                    yield c
+            for kind in ('body', 'stream'):
+                if (case.get('scripts') or {}).get(kind):
+                    c = copy.deepcopy(case)
+                    c['scripts'][kind] = []
+                    yield c
+            for k in ('size', 'threshold', 'chunk'):
+                if case[k] > 1:
+                    for nv in (1, case[k] // 2, case[k] - 1):
+                        if nv >= (0 if k == 'size' else 1):
+                            c = copy.deepcopy(case)
+                            c[k] = nv
+                            yield c
+            return
+        yield from super().shrink_candidates(case)
+
+
 def base_classes(R):
     c = R.case
     cls = []
@@ -124,8 +185,10 @@ def boundary_size(R, r):
     return n in (0, t - 1, t, t + 1) or (c and (n % c in (0, 1, c - 1)))
 
 
-class C01(E2ECheck):
+class C01(LegacyMixin, E2ECheck):
     id = 'C01'
+    legacy_ops = ('upload',)
+    legacy_props = ('C01',)
     oracle = staticmethod(oracles.oracle_c01)
     quick_examples = 32000
     thorough_examples = 600000
@@ -162,8 +225,10 @@ class C01(E2ECheck):
         return cls, nt
 
 
-class C02(E2ECheck):
+class C02(LegacyMixin, E2ECheck):
     id = 'C02'
+    legacy_ops = ('download',)
+    legacy_props = ('C02',)
     oracle = staticmethod(oracles.oracle_c02)
     quick_examples = 32000
     thorough_examples = 600000
@@ -230,8 +295,11 @@ class C03(E2ECheck):
         return cls, nt
 
 
-class C05(E2ECheck):
+class C05(LegacyMixin, E2ECheck):
     id = 'C05'
+    legacy_ops = ('upload',)
+    legacy_props = ('C05',)
+    legacy_faults = True
     oracle = staticmethod(oracles.oracle_c05)
     quick_examples = 32000
     thorough_examples = 500000
@@ -270,8 +338,11 @@ class C05(E2ECheck):
         return cls, nt
 
 
-class C06(E2ECheck):
+class C06(LegacyMixin, E2ECheck):
     id = 'C06'
+    legacy_ops = ('download',)
+    legacy_props = ('C06',)
+    legacy_faults = True
     oracle = staticmethod(oracles.oracle_c06)
     quick_examples = 32000
     thorough_examples = 500000
